@@ -51,6 +51,11 @@ func genPlanC14(t *simrt.Tape, tier string) interface{} {
 		p.Conf.VanishRST = t.Draw(2) == 0
 		p.Conf.RegOut = 0
 	}
+	if t.Draw(6) == 0 {
+		// the server itself is closed while a handshake is inside a callback: the pending
+		// connections are refused connections like any other
+		p.Conf.CloseIn = []string{"auth", "reg"}[t.Draw(2)]
+	}
 	p.LingerS = 90
 	return p
 }
@@ -173,6 +178,9 @@ func runC14(w *World, pi interface{}) {
 		if peer == nil || established[k] || peer.Link == nil || waiting[k] {
 			continue
 		}
+		if !peer.Link.B.Accepted() {
+			continue // still in the accept queue when the listener closed: reset by the network, never the server's to close
+		}
 		if !w.Eventually(60*time.Second, func() bool { return peer.Link.B.IsClosed() }) {
 			w.Violate("C14.server-end-not-closed", sig(lastInputClass(h, k)), "connection %d did not establish, but the server never closed its end of the connection (client left: %v)\n%s", k, clientLeft[k], h.Dump(60))
 		}
@@ -233,7 +241,7 @@ func init() {
 		Run:    runC14,
 		MaxSim: 3 * time.Hour,
 		Rule: "C03's plan space against a full ServerBuilder server, 1-4 concurrent scripted clients per run mixing cooperative ones, clients that vanish (FIN/RST) at a chosen step and random words over the handshake alphabet; " +
-			"authentication outcomes biased to errors/rejections/round trips, registration errors; each client keeps reading for 90 simulated seconds; oracle: refused client sees the connection closed, no callbacks, server end closed, session goroutine census; " +
+			"authentication outcomes biased to errors/rejections/round trips, registration errors, Server.Close called from inside a callback of a pending handshake; each client keeps reading for 90 simulated seconds; oracle: refused client sees the connection closed, no callbacks, server end closed, session goroutine census; " +
 			"non-trivial = at least one scripted client connected; distinct = distinct (plan JSON, event-log hash)",
 	})
 }
